@@ -35,15 +35,15 @@ META = {
 
 def check(ctx):
     g = gc.build(ctx, "R15")
-    r15_1(ctx, g)
-    r15_2(ctx, g)
-    r15_3(ctx, g)
-    r15_4(ctx, g)
-    r15_5(ctx, g)
-    r15_6(ctx, g)
-    r15_7(ctx, g)
-    r15_8(ctx, g)
-    r15_9(ctx, g)
+    ctx.run(r15_1, g)
+    ctx.run(r15_2, g)
+    ctx.run(r15_3, g)
+    ctx.run(r15_4, g)
+    ctx.run(r15_5, g)
+    ctx.run(r15_6, g)
+    ctx.run(r15_7, g)
+    ctx.run(r15_8, g)
+    ctx.run(r15_9, g)
     ctx.not_decided += [
         "that all_components / find_component partition the nodes into the true connected components",
         "that biccs returns exactly the biconnected components and articulation points (algorithmic exactness; only the edge-stack discipline is decided)",
@@ -129,15 +129,48 @@ def r15_1(ctx, g):
     ctx.check(dels == ["GFA.remove_node"], "R15.1", "gaftools/gfa.py", "a node leaves GFA.nodes only in remove_node (after its links were removed)", f"gaftools.gfa::node-deleters:{dels}", deleters=dels)
     # remove_node removes every link first: loops over a *copy* of both adjacency sets, then deletes
     rn = g.remove_node
-    loops = [l for l in rn.node.body if isinstance(l, ast.For)]
+    from ..core import fold_consts, make_resolver
+
+    rn = fold_consts(rn)
+    loops = [l for l in walk_stmts(rn.node.body) if isinstance(l, ast.For) and any(isinstance(c, ast.Call) and isinstance(c.func, ast.Attribute) and c.func.attr == "remove_edge" for c in ast.walk(l))]
     sides = set()
+    untraced = []
     for l in loops:
-        it = norm(l.iter)
-        d = [st for st in rn.node.body if isinstance(st, ast.Assign) and norm(st.targets[0]) == it]
-        src = norm(d[0].value) if d else it
-        for side in ("start", "end"):
-            if f".{side}" in src and ("[" in src or "list(" in src or "copy" in src or "set(" in src):
-                sides.add(side)
+        # the iterable, through the temporaries defined before the loop (the last definition before it counts)
+        src = norm(l.iter)
+        for _ in range(4):
+            names = [n.id for n in ast.walk(ast.parse(src, mode="eval")) if isinstance(n, ast.Name)]
+            done = True
+            for nm in names:
+                ds = [st for st in walk_stmts(rn.node.body) if isinstance(st, ast.Assign) and norm(st.targets[0]) == nm and st.lineno <= l.lineno and not any(x is st for x in ast.walk(l))]
+                ds = [st for st in ds if (st.lineno, st.col_offset) < (l.lineno, l.col_offset)] or ds
+                if ds and nm not in rn.params:
+                    import re as _re
+
+                    src = _re.sub(rf"\b{nm}\b", "(" + norm(ds[-1].value) + ")", src)
+                    done = False
+            if done:
+                break
+        # a helper that hands out the entries (single return): read through it
+        if isinstance(l.iter, ast.Call):
+            cal = ctx.repo.resolve_call(rn, l.iter)
+            if cal is not None:
+                rets_ = [r for r in walk_own(cal.node) if isinstance(r, ast.Return) and r.value is not None]
+                if len(rets_) == 1:
+                    src = src + " <- " + norm(rets_[0].value)
+        hit = [side for side in ("start", "end") if f".{side}" in src]
+        import re as _re2
+
+        if len(hit) == 2 and (_re2.search(r"\.start\)? \| [^,]*\.end|\.end\)? \| [^,]*\.start|\.start\)?\.union\(|\.end\)?\.union\(", src)):
+            ctx.violated("R15.1", rn.where(l), "remove_node walks over the union of the node's two adjacency sets: an entry that is in both (both sides of the node linked to the same side of one neighbour with the same overlap) is met once, so one of the two links is not removed and the neighbour keeps a reference to the deleted node", key_of(rn, "remove-node-union-of-sides"))
+            sides |= {"start", "end"}
+            continue
+        if len(hit) == 1 and ("[" in src or "list(" in src or "copy" in src or "set(" in src or "tuple(" in src or "sorted(" in src):
+            sides.add(hit[0])
+        elif len(hit) != 1:
+            untraced.append(src[:60])
+    if untraced and sides != {"start", "end"}:
+        raise AnalysisError("R15.1", rn.where(), f"cannot trace which adjacency set a link-removing loop of remove_node walks over ({untraced})")
     ctx.check(sides == {"start", "end"}, "R15.1", rn.where(), "remove_node removes the links of both sides of the node, iterating over copies of the adjacency sets", key_of(rn, f"remove-node-sides:{sorted(sides)}"), sides=sorted(sides))
     last = rn.node.body[-1]
     ctx.check(isinstance(last, ast.Delete), "R15.1", rn.where(last), "the node entry is deleted after its links", key_of(rn, "delete-last"))
